@@ -12,6 +12,7 @@ mod fmt;
 mod json;
 mod num;
 mod plan;
+mod probe;
 mod reffmt;
 mod rt;
 mod sc_holder;
@@ -19,6 +20,7 @@ mod sc_mutex;
 mod sc_queue;
 mod sc_stats;
 mod sock;
+mod sweep;
 mod toy;
 mod wmodel;
 mod writer;
@@ -69,8 +71,39 @@ impl Spec {
     }
 }
 
+/// Engines that must run in a process of their own (global state, possible aborts).
+fn run_in_child(spec: &Spec) -> common::Report {
+    let mut rep = common::Report::new(&spec.raw);
+    let exe = std::env::current_exe().expect("current_exe");
+    let out = std::process::Command::new(exe).arg("child").arg(&spec.raw).output();
+    match out {
+        Err(e) => rep.errors.push(format!("cannot start child: {}", e)),
+        Ok(o) => {
+            let stdout = String::from_utf8_lossy(&o.stdout);
+            let line = stdout.lines().rev().find(|l| l.starts_with('{'));
+            match (o.status.success(), line.and_then(|l| Json::parse(l).ok())) {
+                (true, Some(j)) => return common::Report::from_json(&spec.raw, &j),
+                _ => {
+                    let stderr = String::from_utf8_lossy(&o.stderr);
+                    let last = stderr.lines().rev().find(|l| l.starts_with("CASE ")).unwrap_or("(no case marker)").to_string();
+                    let tail: String = stderr.lines().rev().take(6).collect::<Vec<_>>().join(" | ");
+                    rep.evaluations = 1;
+                    rep.violation(common::Violation {
+                        props: vec!["C20"],
+                        sig: "child/aborted".into(),
+                        what: format!("the process running {} died ({}) during: {} -- stderr tail: {}", spec.raw, o.status, last, tail),
+                        replay: Json::obj().set("engine", "child").set("spec", &spec.raw).set("last_case", last),
+                    });
+                }
+            }
+        }
+    }
+    rep
+}
+
 fn run_spec(spec: &Spec) -> common::Report {
     match spec.engine.as_str() {
+        "probe" | "sweep" => run_in_child(spec),
         "wbfs" => writer::bfs(spec.usize("cap", 8), spec.end(), spec.usize("F", 0), spec.usize("budget", 50_000_000) as u64),
         "wtree" => writer::tree(
             spec.usize("cap", 4),
@@ -134,6 +167,16 @@ fn main() {
                 j.put("wall_s", t.elapsed().as_secs_f64());
                 println!("{}", j.render());
             }
+        }
+        "child" => {
+            // silent hook: panics are caught and recorded by the engines
+            std::panic::set_hook(Box::new(|_| {}));
+            let spec = Spec::parse(args.get(2).expect("spec"));
+            let rep = match spec.engine.as_str() {
+                "probe" => probe::run_child(&spec),
+                _ => sweep::run_child(&spec),
+            };
+            println!("{}", rep.to_json().render());
         }
         "selftest" => {
             rt::install();
